@@ -319,7 +319,8 @@ def finish(ctx):
 def enumerate_cases(tier, seed):
     from . import c04
 
-    cases = c04.enumerate_cases(tier, seed)
+    cases = [c for c in c04.enumerate_cases(tier, seed)
+             if sum(1 for d in c.get("env", []) if d[0] == "clash") < 2]
     cases += s3.extra_cases("AMBER")
     # fixed block (any seed): alcoholic hosts next to a donor, an acceptor and
     # another alcoholic group, so that lone-pair creation/removal and the
